@@ -2,7 +2,7 @@
 //! f64, over the base-unit catalogue.  One line per (unit, base set, value):
 //!
 //! conv <V> <base> <module> <unit> <coef> <consA> <consS> <p1:..:p7> <v> <new(v).value> <Q{v}.get()> <new(v).get()>
-//! rnd  <V> <base> <module> <unit> <coef> <consA> <consS> <p1:..:p7> <v> <floor> <ceil> <round> <trunc> <fract>
+//! rnd  <V> <base> <module> <unit> <coef> <consA> <consS> <p1:..:p7> <v> <get(v)> <floor> <ceil> <round> <trunc> <fract>
 #![allow(non_camel_case_types)]
 use std::io::Write;
 use std::marker::PhantomData;
@@ -20,6 +20,15 @@ struct Ctx<W: Write> {
 }
 
 impl<W: Write> Ctx<W> {
+    /// the factors of the base-unit combination: coefficient, exponent, `powi` result
+    fn pows<V: Fl>(&mut self, coefs: &[V; 7], dims: &[i32; 7], pows: &[V; 7]) {
+        if self.lines == "rnd" || self.shard.0 != 0 {
+            return;
+        }
+        for i in 0..7 {
+            writeln!(self.out, "pow {} {} {} {}", V::NAME, coefs[i].hex(), dims[i], pows[i].hex()).unwrap();
+        }
+    }
     #[allow(clippy::too_many_arguments)]
     fn unit<V: Fl>(
         &mut self,
@@ -67,7 +76,7 @@ impl<W: Write> Ctx<W> {
             }
             if let Some(rnd) = rnd {
                 let r = rnd(v);
-                writeln!(self.out, "rnd {} {} {}", head, v.hex(), join_hex(&r).replace(':', " ")).unwrap();
+                writeln!(self.out, "rnd {} {} {} {}", head, v.hex(), get(v).hex(), join_hex(&r).replace(':', " ")).unwrap();
             }
         }
     }
@@ -78,6 +87,7 @@ macro_rules! conv_q {
         type D = uom::si::$module::Dimension;
         type QT = uom::si::$module::$Q<$U<$V>, $V>;
         let pows = base_pows::<D, $U<$V>, $V>();
+        $ctx.pows::<$V>(&base_coefs::<$U<$V>, $V>(), &dim_exps::<D>(), &pows);
         fn q(v: $V) -> QT {
             QT { dimension: PhantomData, units: PhantomData, value: v }
         }
@@ -122,6 +132,7 @@ macro_rules! conv_rnd_q {
         type D = uom::si::$module::Dimension;
         type QT = uom::si::$module::$Q<$U<$V>, $V>;
         let pows = base_pows::<D, $U<$V>, $V>();
+        $ctx.pows::<$V>(&base_coefs::<$U<$V>, $V>(), &dim_exps::<D>(), &pows);
         fn q(v: $V) -> QT {
             QT { dimension: PhantomData, units: PhantomData, value: v }
         }
